@@ -468,6 +468,8 @@ def gen_c18(rng, tier):
     out = []
     for i in range(n):
         out.append(gen_sched.gen_sched_R(rng) if i % 2 == 0 else gen_sched.gen_sched_C(rng))
+    for i in range(n // 6):
+        out.append(gen_sched.gen_sched_L(rng))
     # bounded exhaustive: 2 threads, all interleavings of one observer vs one clone on a stale index,
     # and of map vs stream on a cold cache
     inner = ('raws', 'abcdef')
@@ -482,14 +484,21 @@ def gen_c18(rng, tier):
     for progs, steps in (([['m0'], ['s0']], [2, 1]), ([['m0'], ['m0']], [2, 2]), ([['m0', 's0'], ['s0', 'm0']], [3, 3]), ([['m0'], ['s0'], ['m0']], [2, 1, 2])):
         for sch in sorted(gen_sched.all_interleavings(steps)):
             out.append(Case('sched', {'k': 'C', 'inner': innerc, 'progs': progs, 'sched': list(sch)}, {'nontrivial', 'exhaustive_scope'}))
+    # the critical section of the stream fill path: all interleavings of a first stream with a map / a stream
+    for progs, steps in (([['s0'], ['m0']], [2, 2]), ([['s0'], ['s0']], [2, 2]), ([['s2'], ['s2'], ['s2']], [2, 2, 2]), ([['s0', 'm0'], ['m0', 's0']], [3, 3])):
+        inter = sorted(gen_sched.all_interleavings(steps))
+        if tier == 'quick':
+            inter = inter[::max(1, len(inter) // 30)]
+        for sch in inter:
+            out.append(Case('sched', {'k': 'L', 'inner': innerc, 'progs': progs, 'sched': list(sch)}, {'nontrivial', 'exhaustive_scope', 'lock_probe'}))
     return out
 
 C18 = Spec('C18',
     kinds={'sched': {'ser': gen_sched.ser_sched, 'proj': None, 'shrink': gen_sched.shrink_sched}},
     gen=gen_c18, normalize=gen_sched.normalize,
-    rule='2-3 threads with 1-3 operations each over a shared ReplaceSource (observers that sort lazily, clone; cold, sorted or stale index) or a shared CachedSource and clones of it (map and stream in all option sets); random schedules at the granularity of the schedule points before each shared-state access, plus all interleavings of small programs (observer vs clone on a stale index; map vs stream on a cold cache)',
-    explanation='Sem/Conc.v is an interleaving semantics with one step per shared-state access; the harness executes the same schedule on real threads parked at the hook-H3 schedule points and the per-thread site traces, all results, the final flag/index and the storage identity of every cache entry after every step are compared with the model; chk_C18_* : every result equals the sequential answer, every clone satisfies the object invariant, cache entries are write-once',
-    checker_name='ApiSched.chk_C18_replace / chk_C18_cached', model_name='Sem/Conc.v')
+    rule='2-3 threads with 1-3 operations each over a shared ReplaceSource (observers that sort lazily, clone; cold, sorted or stale index) or a shared CachedSource and clones of it (map and stream in all option sets); random schedules at the granularity of the schedule points before each shared-state access, plus all interleavings of small programs (observer vs clone on a stale index; map vs stream on a cold cache); lock-probe cases park a thread inside the critical section of the stream fill path (before its insert) and let the others run into the held shard lock',
+    explanation='Sem/Conc.v is an interleaving semantics with one step per shared-state access (Sem/ConcLock.v: the stream fill path as acquire / store-and-release with blocking); the harness executes the same schedule on real threads parked at the hook-H3 schedule points and the per-thread site traces, all results, the final flag/index and the storage identity of every cache entry after every step are compared with the model; chk_C18_* : every result equals the sequential answer, every clone satisfies the object invariant, cache entries are write-once',
+    checker_name='ApiSched.chk_C18_replace / chk_C18_cached', model_name='Sem/Conc.v, Sem/ConcLock.v')
 
 C12.xcheck = xcheck.codec_crosscheck
 C17.xcheck = None
